@@ -14,7 +14,7 @@ def run(ctx):
     from ahbicht.expressions.format_constraint_expression_evaluation import format_constraint_evaluation
     from ahbicht.models.enums import ModalMark, PrefixOperator
 
-    built = prepare(ctx, ["Gen_logic", "Gen_ranges", "Gen_valmaps", "Gen_enums", "Gen_ahbgrammar", "Gen_select"], ["Props/C09.vo", "Corr/Validate.vo", "Corr/Ahb.vo"])
+    built = prepare(ctx, ["Gen_logic", "Gen_ranges", "Gen_valmaps", "Gen_enums", "Gen_ahbgrammar", "Gen_select", "Gen_ahbeval"], ["Props/C09.vo", "Corr/Validate.vo", "Corr/Ahb.vo"])
     CANON = {"M": ModalMark.MUSS, "MUSS": ModalMark.MUSS, "S": ModalMark.SOLL, "SOLL": ModalMark.SOLL, "K": ModalMark.KANN, "KANN": ModalMark.KANN,
              "X": PrefixOperator.X, "O": PrefixOperator.O, "U": PrefixOperator.U}
     terms, metas = [], []
